@@ -138,6 +138,7 @@ static void set_env (char **w, int n) {
     if ((v = kv (w, n, "maxttl"))) conf->max_ttl = atoi (v);
     if ((v = kv (w, n, "defttl"))) conf->def_ttl = atoi (v);
     if ((v = kv (w, n, "skew"))) conf->got_clock_skew = atoi (v) ? 1 : 0;
+    if ((v = kv (w, n, "bench"))) conf->got_benchmark = atoi (v) ? 1 : 0;
     if ((v = kv (w, n, "rootauth"))) conf->got_root_auth = atoi (v) ? 1 : 0;
     if ((v = kv (w, n, "retryflag"))) conf->got_socket_retry = atoi (v) ? 1 : 0;
     if ((v = kv (w, n, "defc"))) conf->def_cipher = atoi (v);
